@@ -4,6 +4,7 @@ import RedactVerif.Props.FactsClassify
 import RedactVerif.Props.FactsSkelPrinter
 import RedactVerif.Props.FactsSkelWriters
 import RedactVerif.Props.C07
+import RedactVerif.Proofs.Clean
 /-
 C08 — redactables compose: re-printing is identity, joining is concatenation.
 
@@ -32,6 +33,11 @@ Proved on the model:
   strings (`builder_prints_concat`); `Join` is plain concatenation with the delimiter
   (`join_concat`); Redact and StripMarkers distribute over it for finished redactables
   (`redact_join`, `strip_join`, from `redact_append_obtainable`, `strip_append_obtainable`).
+
+* `Sprint(Sprint(a...)) = Sprint(a...)` as the property states it, for every argument list
+  with clean payloads (`sprint_sprint_identity`, from `Proofs/Clean.lean`: clean inputs give outputs
+  that end in a complete character, by an induction over the 16 functions reachable from `doPrint`;
+  nested `Printf` calls in user methods excluded).
 
 NOT proved: closed forms for whole formats or containers (e.g. `Sprint([]RedactableString{r1,r2})
 = "[" r1 " " r2 "]"` as one equation); JoinTo on a writer other than a fresh StringBuilder. Decided
@@ -332,6 +338,30 @@ theorem strip_join (d : List Byte) (hd : Obtainable d) (ss : List (List Byte)) (
     simp only [joinB, List.map_cons]
     rw [List.append_assoc, strip_append_obtainable _ _ (hs s (by simp)), strip_append_obtainable _ _ hd,
       strip_join d hd (s' :: r) (fun x hx => hs x (by simp [hx])), List.map_cons, List.append_assoc]
+
+/-- **`Sprint(Sprint(a...)) = Sprint(a...)`**, for every argument list whose payloads end in complete
+characters (`ListCl`: type and field names ASCII, the payloads of user methods' calls and the
+oracle's renderings ending in a complete character, embedded redactables finished and clean;
+nested `Printf` calls in user methods are not covered): the output ends in a complete character
+(`sprint_output_clean`), so printing it again copies it and adds nothing. -/
+theorem sprint_sprint_identity (env : Env) (he : EnvCl env) (args : List Val) (ha : ListCl args) (q : PP)
+    (h : sprint env args = .ok q) (ty : List Byte) :
+    (sprint env [.redactable q.buf.redactableBytes ty]).output = some q.buf.redactableBytes :=
+  sprint_reprint_identity env _ ty (sprint_output_clean env he args ha q h).2
+
+/-! Premises satisfiable: a clean environment and a clean argument list with a formatter that writes through the SafePrinter. -/
+example : EnvCl { render := fun _ _ => some [0x61, 0xC3, 0xA9], hook := none } ∧
+    ListCl [.leaf 0 .str [0x73] none false false,
+      .meth { safeFormatter := true } [0x54] false false false 1 (.safeString [0xE2, 0x80, 0xB9] (.print (.cons (.leaf 2 .sint [0x69] none false false) .nil) .done)) .nil] := by
+  refine ⟨⟨fun _ _ s h => ?_, fun h hh => by cases hh⟩, ?_⟩
+  · simp only [Option.some.injEq] at h; subst h
+    exact Or.inr ⟨[0x61], [0xC3, 0xA9], rfl, by decide⟩
+  · intro v hv
+    simp only [List.mem_cons, List.mem_singleton, List.not_mem_nil, or_false] at hv
+    rcases hv with rfl | rfl
+    · simp only [ValCl]; exact asc_of_all (by decide)
+    · simp only [ValCl, ScriptCl, ValsCl]
+      exact ⟨asc_of_all (by decide), ⟨Or.inr ⟨[], [0xE2, 0x80, 0xB9], rfl, by decide⟩, ⟨asc_of_all (by decide), trivial⟩, trivial⟩, trivial⟩
 
 /-! Non-vacuity -/
 example : tailBad (startB ++ [0x78] ++ endB) = false ∧ Obtainable (startB ++ [0x78] ++ endB) := by decide
